@@ -355,7 +355,9 @@ def run(params, tape, detail=False):
             destroyed = faults and k in ("error", "rstack") and not any(tt >= t_f - 1e-9 and fr[0] == k for (tt, fr) in rig.mon.rx_frames)
             if destroyed:
                 probe("failure_frame_destroyed_by_line")
-            if not rep and not rig.lost[lost0:] and not destroyed:
+            if destroyed and not rig.lost[lost0:]:
+                pass  # nothing the host could have reported yet
+            elif not rep and not rig.lost[lost0:]:
                 viol.append(("C10.report", "soak-not-reported", f"soak epoch {e} (v{V}): {k} injected at t={t_f:.4f}; the application's connection_lost was not called within {bound}s"))
             else:
                 probe("reported")
